@@ -514,5 +514,5 @@ def run(ctx):
     r7(ctx)
     ctx.rule('C13.R8', 'a derived or combined condition refers to the same message as the condition it was made from: at every '
              'call in message.cpp whose arguments are named like parameters of the callee (circuit, level, name, ...) no two '
-             'of them are passed crosswise', minimum=20)
-    common.swapped_args_rule(ctx, 'C13.R8', ('src/lib/ebus/message.',), 20)
+             'of them are passed crosswise', minimum=8)
+    common.swapped_args_rule(ctx, 'C13.R8', ('src/lib/ebus/message.',), 8)
